@@ -241,11 +241,23 @@ def tasks(tier, seed):
     for k in range(16):
         ts.append({"name": "random-%d" % k, "fn": "t_random",
                    "kw": {"seed": mix(seed, ID, k), "n": n, "nspell": 4}})
+    for k in range(4):
+        ts.append({"name": "textfuzz-%d" % k, "fn": "t_textfuzz", "kw": {"seed": mix(seed, ID, "textfuzz", k), "n": 900 if tier == "quick" else 15000}})
     return ts
+
+
+def t_textfuzz(seed, n):
+    """mutated query text classified by the independent RFC 9535 parser + typing checker (vf.textfuzz)"""
+    from .. import textfuzz
+    return textfuzz.task(seed, n, 'nofilter')
 
 
 def replay(case):
     stats = Stats()
+    if case.get("origin") == "textfuzz":
+        from .. import textfuzz
+        textfuzz.replay_case(stats, case)
+        return stats
     doc = case["doc"]
     if case.get("origin") == "string-root":
         import json
@@ -257,6 +269,10 @@ def replay(case):
 
 def shrink(case, pred):
     from ..run import shrink_value
+
+    if case.get("origin") == "textfuzz":
+        from .. import textfuzz
+        return textfuzz.shrink_case(case, pred)
 
     # 1. canonical spelling if the failure survives it
     c2 = dict(case)
